@@ -80,6 +80,15 @@ def positional_rename(src: FuncInfo, dst: FuncInfo, extra_src_params: Set[str] =
 # ----------------------------------------------------------------------------
 # L2: last-difference invariant   (0 <= c < N-1  ->  v == arr[c+1]-arr[c]  at the loop head)
 # ----------------------------------------------------------------------------
+def _is_increment(st, name: str) -> bool:
+    if isinstance(st, ast.AugAssign) and isinstance(st.target, ast.Name) and st.target.id == name and isinstance(st.op, ast.Add):
+        return True
+    if isinstance(st, ast.Assign) and len(st.targets) == 1 and isinstance(st.targets[0], ast.Name) and st.targets[0].id == name \
+            and isinstance(st.value, ast.BinOp) and isinstance(st.value.op, ast.Add):
+        return any(isinstance(x, ast.Name) and x.id == name for x in (st.value.left, st.value.right))
+    return False
+
+
 def last_difference_invariants(fi: FuncInfo, roles: MergeRoles, rule: str) -> Tuple[List[Tuple[str, str, str, str]], List[Ob]]:
     """Variables v for which the invariant holds, with the obligations that establish it.
     Only variables that are *read in their own end-edge update* (the L2 reuse) are examined."""
@@ -102,7 +111,7 @@ def last_difference_invariants(fi: FuncInfo, roles: MergeRoles, rule: str) -> Tu
             inc_seen = False
             for it in body:
                 if it[0] == 'simple':
-                    if isinstance(it[1], ast.AugAssign) and isinstance(it[1].target, ast.Name) and it[1].target.id == cur:
+                    if _is_increment(it[1], cur):
                         inc_seen = True
                 if it[0] == 'if' and len(it[1]) == 1:
                     try:
@@ -135,8 +144,7 @@ def last_difference_invariants(fi: FuncInfo, roles: MergeRoles, rule: str) -> Tu
                         n_assign += 1
             good &= (n_assign == 2 * len(vs))
             # every advance of the cursor is followed by such a site
-            n_inc = sum(1 for body in bodies for it in body if it[0] == 'simple' and isinstance(it[1], ast.AugAssign)
-                        and isinstance(it[1].target, ast.Name) and it[1].target.id == cur)
+            n_inc = sum(1 for body in bodies for it in body if it[0] == 'simple' and _is_increment(it[1], cur))
             good &= (n_inc == len(vs))
             # initialisation: in the pre-loop `if arr[0] > t_start` item, the branch that sets cur = 0 assigns
             # v = arr[1]-arr[0] when N > 1
@@ -331,6 +339,7 @@ class SiblingEngine:
                     a.rename = dict(a.rename)
                     a.init = {e: C.atom(('call', 'len', (C.atom(('n', arrp)),)))}  # type: ignore[attr-defined]
         cmp = Comparer(a, b, cursors=cursors, title=title)
+        self._last_sides = (a, b)
         # L2 hook on the pyx side
         l2_obs: List[Ob] = []
         if roles_x is not None and roles_x.ok and roles_x.kind == 'cursor':
@@ -345,6 +354,10 @@ class SiblingEngine:
                 pass
             cmp.extra_params_a = extra  # type: ignore[attr-defined]
             cmp.run()
+            if cmp.mismatches:
+                better = self._retry_with_local_pairings(pyx, py, a, b, cursors, title, extra, getattr(cmp, 'hook_a', None))
+                if better is not None:
+                    cmp = better
             res['points'] = cmp.points
             res['mismatches'] = cmp.mismatches
             res['info'] = cmp.info
@@ -381,6 +394,43 @@ class SiblingEngine:
             res['inconclusive'] = f"{title}: canonicaliser: {e}"
         self.results[key] = res
         return res
+
+    def _retry_with_local_pairings(self, pyx, py, a: Side, b: Side, cursors, title, extra, hook_a):
+        """A local renamed on one side only breaks name-based matching.  Try the pairings of unmatched locals (few);
+        a pairing is accepted only if the whole comparison then succeeds - otherwise the original report stands."""
+        import itertools
+
+        def locals_of(fi):
+            params = {x.arg for x in fi.node.args.args}
+            return [n for n in dict.fromkeys(x.id for x in ast.walk(fi.node) if isinstance(x, ast.Name) and isinstance(x.ctx, ast.Store))
+                    if n not in params]
+        la = [a.cn(n) for n in locals_of(pyx)]
+        lb_raw = locals_of(py)
+        lb = [b.rename.get(n, n) for n in lb_raw]
+        only_a = [n for n in la if n not in lb]
+        only_b = [n for n in lb_raw if b.rename.get(n, n) not in la]
+        if not only_a or not only_b or len(only_b) > 2 or len(only_a) > 7:
+            return None
+        for combo in itertools.permutations(only_a, len(only_b)):
+            ren = dict(b.rename)
+            for raw, tgt in zip(only_b, combo):
+                ren[raw] = tgt
+            a2 = Side(pyx, rename=dict(a.rename), lens=a.lens, label='pyx')
+            a2.call_adapters = a.call_adapters
+            a2.init = dict(a.init)
+            b2 = Side(py, rename=ren, lens=b.lens, label='py')
+            b2.call_adapters = b.call_adapters
+            c2 = Comparer(a2, b2, cursors=cursors, title=title)
+            c2.extra_params_a = extra
+            c2.hook_a = hook_a
+            try:
+                c2.run()
+            except Exception:
+                continue
+            if not c2.mismatches:
+                c2.info.append(f"{title}: locals paired {dict(zip(only_b, combo))} (one-sided renaming)")
+                return c2
+        return None
 
     # ------------------------------------------------------------------
     def pair_obligations(self, pyx: FuncInfo, py: FuncInfo, rule: str, fam: Optional[Family] = None) -> List[Ob]:
